@@ -18,8 +18,8 @@ import traceback
 from . import VERIF_DIR, REPO
 
 KNOWN_FINDINGS = os.path.join(VERIF_DIR, 'known_findings.json')
-EVIDENCE_DIR = os.path.join(VERIF_DIR, 'evidence')
-REPLAY_DIR = os.path.join(VERIF_DIR, 'replays')
+EVIDENCE_DIR = os.environ.get('SV_EVIDENCE_DIR') or os.path.join(VERIF_DIR, 'evidence')
+REPLAY_DIR = os.environ.get('SV_REPLAY_DIR') or os.path.join(VERIF_DIR, 'replays')
 CORPUS_DIR = os.path.join(VERIF_DIR, 'corpus')
 NPROC = int(os.environ.get('SV_NPROC', '16'))
 
